@@ -58,8 +58,8 @@ CHECKS.update({
    text="The same write-effect analysis, read sequentially: nothing reachable from the datum or from the Evaluator/Filter is ever written by Evaluate/Execute; the postcondition of Evaluate (C01) mentions only the evaluator's fields and the datum, so a used evaluator behaves like a fresh one; the regexp cache obeys the invariant allCacheOK (empty or the compiled form of Raw) and doMatchMatches returns MatchesSpec on both the hit and the miss path; Expression() is verified to return the stored creation string, CreateEvaluator to store it unchanged.",
    note=BASE_TRUST + "; A-EXT-PURE, A-PS (Get does not write to the datum).", tech=TECH+" + SSA write-effect analysis", ref="DESIGN.md §6 C13"),
  "C15": dict(cat="exploration",
-   text="The contract Parse(b) == RefParse(b) cannot be discharged: it needs the pigeon engine proved equal to PEG semantics, which is outside this VC generator's reach. A bounded check of the real function stands in (labelled bounded, never counted as proved): grammar.Parse is compared with an independent hand-written PEG recognizer/AST builder on every short token sequence (see rule). Proved sub-claims reported beside it: all 50 semantic actions under WP contracts (they build the prescribed node from their arguments), and C20 (the table is the grammar).",
-   note="the reference parser is the oracle; A-ENGINE is what the bounded run stands in for.", tech="bounded exhaustive differential run against an independent reference (stand-in) + WP contracts on the semantic actions", ref="DESIGN.md §6 C15, §7"),
+   text="The contract Parse(b) == RefParse(b) cannot be discharged: it needs the pigeon engine proved equal to PEG semantics, which is outside this VC generator's reach. A bounded check of the real function stands in (labelled bounded, never counted as proved): grammar.Parse is compared with an independent hand-written PEG recognizer/AST builder on every short token sequence (see rule). Proved sub-claims reported beside it (WP on the real code, all inputs): all 50 semantic actions (they build the prescribed node from their arguments); the engine's node methods pass values as PEG semantics prescribes (ensures yields, spec/27-peg.smt2) and keep backtracking hygiene (a failed match leaves the read position where it was; the & and ! predicates never consume); and C20 (the table is the grammar). What is matched - the matchers, read(), and hence the accepted language - is only covered by the bounded run.",
+   note="the reference parser is the oracle; A-ENGINE is what the bounded run stands in for.", tech="bounded exhaustive differential run against an independent reference (stand-in) + WP contracts on the semantic actions and the engine's node methods", ref="DESIGN.md §6 C15, §7"),
  "C16": dict(cat="exploration",
    text="Round trip render->parse on an enumerated space of trees x layouts, and X == <quoted s> on X = s for a list of awkward and pseudo-random strings (bounded stand-in). Proved sub-claims: onNotExpression2 folds double negation, onStringLiteral2 returns exactly strconv.Unquote of the matched text, onValue2/5/8 put the literal text (for a quoted JSON-Pointer-shaped literal: the text between the quotes) into Raw.",
    note="A-ENGINE; precedence/grouping are only in the bounded part.", tech="bounded round-trip enumeration (stand-in) + WP contracts on the literal-building actions", ref="DESIGN.md §6 C16, §7"),
